@@ -82,6 +82,23 @@ class NTV(V):
         return "%s(%s)" % (self.cls.name, ", ".join("%s=%r" % fv for fv in zip(self.cls.fields, self.values)))
 
 
+class PropertyV(V):
+    """property(fget) created by a call (class-level attribute), not by the decorator"""
+    def __init__(self, fget, fset=None):
+        self.fget, self.fset = fget, fset
+
+    def key(self):
+        return ("property", self.fget.key() if self.fget is not None else None)
+
+
+class EnumConst(Const):
+    """member of a str-mixin Enum (equal to its value)"""
+    enum = None
+
+    def __repr__(self):
+        return "%s.%s" % self.enum if self.enum else Const.__repr__(self)
+
+
 class ExcV(V):
     def __init__(self, cls, args):
         self.cls = cls      # ClassV or ExtV
@@ -362,6 +379,15 @@ class OpsMixin(object):
                     self.err(node, "classmethod() of %r" % (v.fn,))
                 if isinstance(v, FuncV) and v.selfv is None and inst is not None and not v.fi.is_staticmethod:
                     return FuncV(v.fi, v.closure, inst)       # a function stored on the class is a method of its instances
+                if isinstance(v, PropertyV):
+                    if inst is None:
+                        return v
+                    if v.fget is None:
+                        raise RaiseSignal(ExcV(ExtV("builtins.AttributeError"), [Const("unreadable attribute %s" % attr)]), node)
+                    return self.call(v.fget, [inst], {}, node)
+                if isinstance(v, Const) and inst is None and any(
+                        isinstance(b, ExternalClass) and b.name.split(".")[-1] in ("Enum", "IntEnum", "StrEnum", "Flag") for b in c.mro()):
+                    return self.enum_member(c, attr, v, node)
                 return v
         if attr == "__class__" and inst is not None:
             return ClassV(ci)
@@ -379,6 +405,16 @@ class OpsMixin(object):
                 raise AnalysisError("the check relies on the private attribute %s.%s, which this tree does not have" % (ci.name, attr))
             raise RaiseSignal(ExcV(ExtV("builtins.AttributeError"), [Const("'%s' object has no attribute '%s'" % (ci.name, attr))]), node)
         self.err(node, "%s has no attribute %s" % (ci.name, attr))
+
+    def enum_member(self, ci, attr, v, node):
+        """a member of an Enum that mixes in str: it compares, hashes and indexes as its string value; how it prints differs
+        from the plain string, so it is refused wherever text is made from it"""
+        ext = [b.name.split(".")[-1] for b in ci.mro() if isinstance(b, ExternalClass)]
+        if not (isinstance(v.v, str) and ("str" in ext or "StrEnum" in ext)):
+            self.err(node, "enum member %s.%s that is not a string mix-in" % (ci.name, attr))
+        m = EnumConst(v.v)
+        m.enum = (ci.name, attr)
+        return m
 
     def hasattr(self, base, attr):
         """-> bool or Cond"""
@@ -658,9 +694,12 @@ class OpsMixin(object):
         if isinstance(fn, NTClassV):
             vals = list(args)
             for f in fn.fields[len(vals):]:
-                if f not in kwargs:
+                if f in kwargs:
+                    vals.append(kwargs[f])
+                elif f in getattr(fn, "defaults", {}):
+                    vals.append(fn.defaults[f])
+                else:
                     self.err(node, "namedtuple field %s missing" % f)
-                vals.append(kwargs[f])
             if len(vals) != len(fn.fields) or any(k not in fn.fields for k in kwargs):
                 self.err(node, "namedtuple %s constructed with wrong fields" % fn.name)
             return NTV(fn, vals)
@@ -753,8 +792,14 @@ class OpsMixin(object):
         inst = InstV(ci)
         inst.birth = len(self.path_conds)
         init = ci.lookup("__init__")
-        if init is not None:
+        deco = self.class_decorators(ci, node)
+        if init is None and "dataclass" in deco:
+            self.dataclass_init(ci, inst, deco["dataclass"], list(args), dict(kwargs), node)
+        elif init is not None:
             self.call_function(FuncV(init, selfv=inst), args, kwargs, node)
+        elif init is None and (args or kwargs) and all(isinstance(c, ClassInfo) or c.name.split(".")[-1] == "object" for c in ci.mro()) \
+                and ci.lookup("__new__") is None:
+            raise RaiseSignal(ExcV(ExtV("builtins.TypeError"), [Const("%s() takes no arguments" % ci.name)]), node)
         elif any(isinstance(c, ExternalClass) and c.name.endswith("partial") for c in ci.mro()):
             inst.attrs["func"] = args[0]
             inst.attrs["args"] = ListV(list(args[1:]), "tuple")
@@ -763,6 +808,65 @@ class OpsMixin(object):
                 d.items[Const(k).key()] = (Const(k), v)
             inst.attrs["keywords"] = d
         return inst
+
+    def class_decorators(self, ci, node):
+        """{'dataclass': keyword dict} for library class decorators that change construction; decorators defined in the
+        package are ordinary calls applied when the module is imported; any other library decorator is refused"""
+        out = {}
+        for c in [x for x in ci.mro() if isinstance(x, ClassInfo)]:
+            for d in c.node.decorator_list:
+                f = d.func if isinstance(d, ast.Call) else d
+                r = self.p.resolve_expr(c.module, f)
+                name = getattr(r, "name", None) if type(r).__name__ == "External" else None
+                if name is None:
+                    continue                       # a decorator of the package itself
+                if name.split(".")[-1] == "dataclass" and name.split(".")[0] == "dataclasses":
+                    kw = {}
+                    if isinstance(d, ast.Call):
+                        if d.args:
+                            self.err(node, "dataclass with positional arguments")
+                        for k in d.keywords:
+                            if not isinstance(k.value, ast.Constant):
+                                self.err(node, "dataclass(%s=<expression>)" % k.arg)
+                            kw[k.arg] = k.value.value
+                    if c is ci or "dataclass" not in out:
+                        out["dataclass"] = kw
+                elif name.split(".")[-1] in ("total_ordering", "unique", "final", "runtime_checkable"):
+                    continue                       # do not affect construction or attribute access
+                else:
+                    self.err(node, "class decorator %s of %s is not modelled" % (name, c.name))
+        return out
+
+    def dataclass_init(self, ci, inst, options, args, kwargs, node):
+        """the __init__ dataclasses generates: one parameter per annotated class-level name, base classes first, in order,
+        defaults from the class body; then __post_init__"""
+        if options.get("init", True) is False:
+            self.err(node, "dataclass(init=False)")
+        fields = []
+        for c in reversed([x for x in ci.mro() if isinstance(x, ClassInfo)]):
+            for nm, default in c.ann_fields:
+                fields = [f for f in fields if f[0] != nm] + [(nm, default, c)]
+        pos = list(args)
+        if len(pos) > len(fields):
+            raise RaiseSignal(ExcV(ExtV("builtins.TypeError"), [Const("%s() takes %d positional arguments" % (ci.name, len(fields)))]), node)
+        for i, (nm, default, c) in enumerate(fields):
+            if i < len(pos):
+                if nm in kwargs:
+                    raise RaiseSignal(ExcV(ExtV("builtins.TypeError"), [Const("multiple values for %s" % nm)]), node)
+                inst.attrs[nm] = pos[i]
+            elif nm in kwargs:
+                inst.attrs[nm] = kwargs.pop(nm)
+            elif default is not None:
+                if isinstance(default, ast.Call) and ast.unparse(default.func).split(".")[-1] == "field":
+                    self.err(node, "dataclasses.field(...) defaults are not modelled")
+                inst.attrs[nm] = self.eval(default, Env(module=c.module, label=c.fq))
+            else:
+                raise RaiseSignal(ExcV(ExtV("builtins.TypeError"), [Const("%s() missing argument %s" % (ci.name, nm))]), node)
+        if kwargs:
+            raise RaiseSignal(ExcV(ExtV("builtins.TypeError"), [Const("unexpected keyword %s" % sorted(kwargs))]), node)
+        post = ci.lookup("__post_init__")
+        if post is not None:
+            self.call_function(FuncV(post, selfv=inst), [], {}, node)
 
     def is_exception_class(self, ci):
         for c in ci.mro():
